@@ -11,7 +11,7 @@ import math
 
 from . import loops as LP
 from .loops import INF, loop_info, first_fail, icmp_eval, NEG, SWAP
-from .vals import (AlignDep, PtrBits, Aff, Aborted, FnPtr, NeedEnum, Obj, Opaque, OPAQUE, UNINIT, Ptr, Unsupported, aff_add, aff_mul, aff_parts,
+from .vals import (AlignDep, PtrAfter, PtrDiff, PtrBits, Aff, Aborted, FnPtr, NeedEnum, Obj, Opaque, OPAQUE, UNINIT, Ptr, Unsupported, aff_add, aff_mul, aff_parts,
                    is_int, mask, mk_aff, signed)
 
 
@@ -680,6 +680,8 @@ class Machine:
                     if a.obj is b.obj:
                         r = aff_add(a.off, b.off, 64, -1)
                         return r if r is not None else self._nonaff_of(a.off, b.off)
+                    if bits == 64 and self._inb(a) and self._inb(b):
+                        return PtrDiff(a, b)
                     return OPAQUE
                 if isinstance(a, Ptr):
                     r = aff_add(a.off, b, 64, -1)
@@ -775,7 +777,17 @@ class Machine:
     def _unknown_ptr(self, p):
         return OPAQUE
 
+    @staticmethod
+    def _inb(p):
+        return is_int(p.off) and not p.slack and is_int(p.obj.size) and 0 <= p.off < p.obj.size
+
     def icmp(self, pred, a, b, bits, i):
+        if isinstance(a, PtrDiff) and a.abs and is_int(b) and bits == 64 and pred in ('ult', 'ule', 'ugt', 'uge'):
+            # |p - q| against a length: decided when the bound that holds in either order of the two objects decides it
+            lo = a.lower()
+            if lo > b or (lo == b and pred in ('ult', 'uge')):
+                return int(pred in ('ugt', 'uge'))
+            return OPAQUE
         if isinstance(a, AlignDep) or isinstance(b, AlignDep):
             x = a.assume if isinstance(a, AlignDep) else a
             y = b.assume if isinstance(b, AlignDep) else b
@@ -791,6 +803,9 @@ class Machine:
                         return 0
                     if pred == 'ne':
                         return 1
+                    if self._inb(a) and self._inb(b) and pred[0] == 'u':
+                        # distinct objects, both pointers inside theirs: the order of the pointers is the order of the objects
+                        return PtrAfter(a.obj, b.obj) if pred in ('ugt', 'uge') else PtrAfter(b.obj, a.obj)
                     return OPAQUE
                 d = aff_add(a.off, b.off, 64, -1)
                 if d is None:
@@ -1199,6 +1214,11 @@ class Machine:
             elif isinstance(c, AlignDep):
                 self.emit('X', None, 0, i.loc, note='alignment-dependent select: the value depends on the address bits of a caller buffer')
                 env[i.id] = a if c.assume & 1 else b
+            elif (isinstance(c, PtrAfter) and isinstance(a, PtrDiff) and isinstance(b, PtrDiff) and not a.abs and not b.abs
+                  and a.p.obj is c.A and a.q.obj is c.B and b.p.obj is c.B and b.q.obj is c.A
+                  and a.p.off == b.q.off and a.q.off == b.p.off):
+                # c ? p - q : q - p with c = `p's object lies after q's`: the distance |p - q|
+                env[i.id] = PtrDiff(a.p, a.q, abs=True)
             else:
                 env[i.id] = a if self._same(a, b) else OPAQUE
         elif op == 'call':
